@@ -3,6 +3,7 @@ package rig
 import (
 	"fmt"
 	"io"
+	"os"
 
 	"github.com/scottyw/tetromino/gameboy/audio"
 	"github.com/scottyw/tetromino/gameboy/controller"
@@ -41,6 +42,55 @@ type Opts struct {
 	AudioOut bool
 	// SerialWriter is passed to serial.New (nil = none).
 	SerialWriter io.Writer
+	// DebugCPU / DebugLCD are the emulator's debug options (the CPU trace goes to standard
+	// output: use QuietStdout around such runs).
+	DebugCPU bool
+	DebugLCD bool
+
+	noBystander bool
+}
+
+var (
+	elder, younger *Machine
+	siblingROM     []byte
+	// Siblings counts the bystander machines built so far (for coverage reports).
+	Siblings int64
+)
+
+// sibling builds a bystander machine and lets it run: it writes its registers and memory,
+// sets the palettes and sound registers, enables and takes a V-blank interrupt.
+func sibling() *Machine {
+	if siblingROM == nil {
+		rom := BlankROM(0, 0, 0)
+		Put(rom, 0x40, 0x3c, 0xd9) // INC A; RETI
+		Put(rom, 0x100, 0x00, 0xc3, 0x50, 0x01)
+		// LD SP,DFF0; LD A,01; LDH (FF),A; LDH (0F),A; EI; NOP; LD HL,C123
+		Put(rom, 0x150, 0x31, 0xf0, 0xdf, 0x3e, 0x01, 0xe0, 0xff, 0xe0, 0x0f, 0xfb, 0x00, 0x21, 0x23, 0xc1,
+			// loop: INC A; palettes, scroll, window, wave RAM, envelope, serial, TMA, work RAM; JR loop
+			0x3c, 0xe0, 0x47, 0xe0, 0x48, 0xe0, 0x49, 0xe0, 0x42, 0xe0, 0x43, 0xe0, 0x4a, 0xe0, 0x4b, 0xe0, 0x30, 0xe0, 0x12, 0xe0, 0x01, 0xe0, 0x06, 0x77, 0x18, 0xe6)
+		siblingROM = rom
+	}
+	b, err := New(siblingROM, Opts{noBystander: true})
+	if err != nil {
+		panic("rig: the bystander machine does not load: " + err.Error())
+	}
+	for k := 0; k < 48; k++ {
+		b.Step()
+	}
+	Siblings++
+	return b
+}
+
+// QuietStdout redirects the process's standard output to the null device until the returned
+// function is called (results never travel over standard output in worker processes).
+func QuietStdout() func() {
+	old := os.Stdout
+	null, err := os.OpenFile(os.DevNull, os.O_WRONLY, 0)
+	if err != nil {
+		return func() {}
+	}
+	os.Stdout = null
+	return func() { os.Stdout = old; null.Close() }
 }
 
 // New builds a machine. A panic during construction is returned as an error
@@ -52,6 +102,21 @@ func New(rom []byte, o Opts) (m *Machine, err error) {
 			err = fmt.Errorf("construction panic: %v", r)
 		}
 	}()
+	if !o.noBystander {
+		// Every machine a check builds has company: one sibling created before any other
+		// machine of the process and one created right after it, each of which has run a few
+		// instructions and taken an interrupt. Nothing a sibling does may matter to m; state that
+		// is wrongly shared between instances ("first one wins", "last one wins") then shows in
+		// the single-instance checks too.
+		if elder == nil {
+			elder = sibling()
+		}
+		defer func() {
+			if m != nil {
+				younger = sibling()
+			}
+		}()
+	}
 	m = &Machine{}
 	m.IRQ = interrupts.New()
 	m.OAM = oam.New()
@@ -62,12 +127,12 @@ func New(rom []byte, o Opts) (m *Machine, err error) {
 	} else {
 		m.Audio = audio.New(nil, nil)
 	}
-	m.PPU = ppu.New(m.IRQ, m.OAM, false)
+	m.PPU = ppu.New(m.IRQ, m.OAM, o.DebugLCD)
 	m.Serial = serial.New(o.SerialWriter)
 	m.Timer = timer.New()
 	m.Ctl = controller.New()
 	m.Mem = memory.New(rom, m.IRQ, m.OAM, m.PPU, m.Ctl, m.Serial, m.Timer, m.Audio)
-	m.CPU = cpu.New(m.IRQ, m.OAM, false, m.Mem)
+	m.CPU = cpu.New(m.IRQ, m.OAM, o.DebugCPU, m.Mem)
 	m.CPU.Initialize()
 	return m, nil
 }
@@ -79,6 +144,17 @@ func MustNew(rom []byte, o Opts) *Machine {
 		panic(err)
 	}
 	return m
+}
+
+// SiblingRun lets the younger bystander machine run n machine cycles (it keeps rewriting its
+// palettes, scroll and window registers, wave RAM, an envelope, SB, TMA and a work RAM byte).
+func SiblingRun(n int) {
+	if younger == nil {
+		return
+	}
+	for k := 0; k < n; k++ {
+		younger.Step()
+	}
 }
 
 // Step advances one machine cycle in the documented order: CPU, video, memory (DMA and
@@ -94,6 +170,9 @@ func (m *Machine) Step() {
 	m.Cycles++
 	if m.L != nil {
 		m.Drain()
+	}
+	if m.Cycles&63 == 0 && m != younger && m != elder && younger != nil {
+		younger.Step()
 	}
 }
 
